@@ -169,6 +169,7 @@ impl ExprStream {
             2 | 5 | 8 => return gexpr::root_position_shape(&mut rng),
             11 => return gexpr::nested_semantic(&mut rng),
             7 => return gexpr::nested_repetition_edges(&mut rng),
+            4 | 10 => return gexpr::directly_nested_groups(&mut rng),
             _ => {},
         }
         gexpr::branch_shapes(&mut rng, 1).pop().unwrap_or_default()
